@@ -218,6 +218,8 @@ def reset_reuse(ctx, i):
         for v in ea['vars']:
             sa_, sb_ = ea['vars'][v], eb['vars'].get(v, [])
             sc = max([abs(x) for x in sa_ if math.isfinite(x)] or [0.0])
+            if 'torque' in v:
+                sc = max([sc] + [abs(x) for v2 in ('torque', 'driving torque', 'load torque') for x in ea['vars'].get(v2, ()) if math.isfinite(x)])
             sq_ = v == 'contact stress'          # square root of the force: compared in the squares next to zero (appendix A24)
             if len(sb_) != len(sa_) or any(not (x == y or abs(x - y) <= 1e-9 * max(abs(x), abs(y)) + 1e-9 * sc or (x != x and y != y)
                                                 or (sq_ and abs(x * x - y * y) <= 1e-9 * sc * sc)) for x, y in zip(sa_, sb_)):
@@ -230,7 +232,7 @@ def reset_reuse(ctx, i):
 def one(ctx, i):
     rng = ctx.rng('case', i)
     case = {'kind': 'stopcase', 'index': i}
-    prof = dict(p_continue=0.0, p_reset=0.0, n_lo=12, n_hi=70, p_currents=0.8)
+    prof = dict(p_continue=0.0, p_reset=0.0, n_lo=12, n_hi=70, p_currents=0.8, p_noload_start=0.0)
     spec = GEN.gen_scenario(rng, prof)
     if rng.random() < 0.3:
         GEN.add_const_rules(rng, spec)
